@@ -22,7 +22,7 @@ func TestVerif(t *testing.T) {
 	driver.Main(t, driver.Harness{
 		ID:    "C09",
 		Level: "model_checking",
-		Rule: "history = push every node of a DAG (curated referrer shapes + every U(4) shape with a subject) ; up to 2 (thorough 3) tagging steps from {tag x r1, tag y r1 (moves the tag), tag z r2, untag r1} over every choice of nodes ; " +
+		Rule: "history = push every node of a DAG (curated referrer shapes + every U(4) shape with a subject) ; up to 2 (thorough 3) tagging steps from {tag x r1, tag y r1 (moves the tag), tag z r2, untag r1} over every choice of manifests x, y and of any node z (blobs included) ; " +
 			"optional stray blob files ; then up to 2 operations from {Delete(every descriptor), GC}; AutoGC on and off; map-iteration order deviations O<=1 (thorough 2) at the Delete/Remove/Predecessors/gcIndex map ranges. " +
 			"After every operation Exists/Resolve/Tags/Predecessors and the blobs/ listing are compared with a least-fixed-point model written from the property text; termination = file-system operation budget per call. " +
 			"non-trivial = distinct history in which Delete or GC removed at least one node other than the named target",
@@ -206,7 +206,8 @@ func history(c *driver.Ctx, d *DAG, autogc, stray bool, tagSteps, opSteps int) (
 			case 1:
 				op = Op{Kind: "tag", Node: manifests[vs.Choose(len(manifests), vs.KInput, "node")], Ref: "r1"}
 			case 2:
-				op = Op{Kind: "tag", Node: manifests[vs.Choose(len(manifests), vs.KInput, "node")], Ref: "r2"}
+				// any node: Tag accepts every stored descriptor, a layer or config can carry a tag of its own
+				op = Op{Kind: "tag", Node: vs.Choose(len(d.Nodes), vs.KInput, "node"), Ref: "r2"}
 			case 3:
 				op = Op{Kind: "untag", Ref: "r1"}
 			}
